@@ -690,7 +690,10 @@ class StringValueTransformer(VcfValueTransformer):
             value = np.array(list(vcf_value.split(",")))
         else:
             # TODO can we make this faster??
-            value = np.array([v.split(",") for v in vcf_value], dtype="O")
+            # htslib reports a dropped trailing field as an empty string
+            value = np.array(
+                [(v if len(v) > 0 else ".").split(",") for v in vcf_value], dtype="O"
+            )
             # print("HERE", vcf_value, value)
             # for v in vcf_value:
             #     print("\t", type(v), len(v), v.split(","))
